@@ -296,13 +296,22 @@ func checkQMultiplex(t *vlib.T, s graphSpace, idxs []int, idKind, order int) {
 		for i := range single {
 			single[i] = i
 		}
-		got := community.QMultiplex(m.g, nil, ws, nil)
-		for l := 0; l < L; l++ {
-			if m.sp[l].totalWeight() == 0 {
-				continue
+		// (for every resolution option: the nil-communities path of QMultiplex is separate code and
+		// has to honour per-layer resolutions exactly like the explicit singleton partition.)
+		for _, res := range resolutionOptions(L) {
+			got := community.QMultiplex(m.g, nil, ws, res)
+			evals++
+			if len(got) != L {
+				t.Failf("QMultiplex(nil communities) returned %d values for %d layers", len(got), L)
+				return
 			}
-			if want := qLayerRef(m.sp[l], layerW(ws, l), 1, single); !(math.Abs(got[l]-want) <= 1e-11) {
-				t.Failf("QMultiplex(layers %s, nil, weights %v, nil)[%d] = %v, singleton partition gives %v", m, ws, l, got[l], want)
+			for l := 0; l < L; l++ {
+				if m.sp[l].totalWeight() == 0 {
+					continue
+				}
+				if want := qLayerRef(m.sp[l], layerW(ws, l), layerRes(res, l), single); !(math.Abs(got[l]-want) <= 1e-11) {
+					t.Failf("QMultiplex(layers %s, nil, weights %v, resolutions %v)[%d] = %v, singleton partition gives %v", m, ws, res, l, got[l], want)
+				}
 			}
 		}
 	}
